@@ -21,8 +21,10 @@ import (
 	"testing"
 	"time"
 
+	"verif/sim/simatomic"
 	"verif/sim/simnet"
 	"verif/sim/simrt"
+	"verif/sim/simsync"
 )
 
 func init() {
@@ -223,8 +225,66 @@ func simSelfTest(w *World) {
 	if string(slowGot) != "0123456789PQRSTUVWXYZ!" {
 		bad("stalled peer received %q, want \"0123456789PQRSTUVWXYZ!\"", slowGot)
 	}
-	if done != 3 {
-		bad("self-test goroutines finished: %d of 3", done)
+	// 4. the shims of sync.Map, sync.Pool and sync/atomic (the unchanged proxy uses two atomic flags and neither Map nor
+	// Pool): same results as the real ones, Range in canonical order, Pool hands out what was put or something new
+	step("sync-shims", func() {
+		var m simsync.Map
+		for _, k := range []string{"d", "b", "a", "c"} {
+			m.Store(k, len(k))
+		}
+		m.Delete("c")
+		if v, ok := m.LoadOrStore("b", 7); !ok || v.(int) != 1 {
+			bad("Map.LoadOrStore of a present key: %v %v", v, ok)
+		}
+		var seen []string
+		m.Range(func(k, v any) bool { seen = append(seen, k.(string)); return true })
+		if !w.P.MapPerm && fmt.Sprint(seen) != "[a b d]" || len(seen) != 3 {
+			bad("Map.Range visited %v, want a b d", seen)
+		}
+		made := 0
+		pool := simsync.Pool{New: func() any { made++; return new(int) }}
+		a := pool.Get().(*int)
+		b := pool.Get().(*int)
+		if a == b || made != 2 {
+			bad("Pool: two Gets without a Put returned the same item or made %d", made)
+		}
+		pool.Put(a)
+		c := pool.Get().(*int)
+		d := pool.Get().(*int)
+		if c == d || c == b || d == b || (c != a && d != a && made != 4) || made > 4 {
+			bad("Pool: items handed out twice or made out of thin air (made=%d)", made)
+		}
+		var flag int32
+		var cnt simatomic.Int64
+		if !simatomic.CompareAndSwapInt32(&flag, 0, 1) || simatomic.CompareAndSwapInt32(&flag, 0, 2) || simatomic.LoadInt32(&flag) != 1 {
+			bad("atomic compare-and-swap")
+		}
+		if cnt.Add(5) != 5 || cnt.Load() != 5 || simatomic.AddInt32(&flag, 2) != 3 {
+			bad("atomic add")
+		}
+	})
+	// 5. a check-then-act over an atomic flag by two goroutines: whether both get through is the scheduler's decision
+	// (counted as a probe: over a batch of worlds both outcomes must occur)
+	var gate int32
+	var through simatomic.Int32
+	for i := 0; i < 2; i++ {
+		step("atomic-cta", func() {
+			if simatomic.LoadInt32(&gate) == 0 {
+				simatomic.StoreInt32(&gate, 1)
+				through.Add(1)
+			}
+		})
+	}
+	w.K.Advance(time.Millisecond)
+	if n := through.Load(); n == 2 {
+		w.Stats["probe:atomic-check-then-act-both-through"]++
+	} else if n == 1 {
+		w.Stats["probe:atomic-check-then-act-one-through"]++
+	} else {
+		bad("atomic check-then-act: %d goroutines got through", n)
+	}
+	if done != 6 {
+		bad("self-test goroutines finished: %d of 6", done)
 	}
 	w.Stats["judged:SIMSELF"]++
 }
